@@ -3,6 +3,7 @@
 package main
 
 import (
+	"os"
 	"sort"
 	"strings"
 
@@ -35,11 +36,93 @@ func genSchedExcl(r *Rand, tier string, emit func(sx.Sx)) {
 			continue
 		}
 		emit(sx.L(sx.S(kind), sx.S(p)))
+		if kind == "emit" {
+			// three goroutines, two Emits each, on an open and on a closed stream: whoever is inside the
+			// region is held there while the others run - never two inside at once
+			emit(sx.L(sx.S("emit3"), sx.S(p)))
+			emit(sx.L(sx.S("emit3closed"), sx.S(p)))
+		}
 	}
+}
+
+// runSchedHold: the "hold" policy - the first task to park at `point` is held there as long as any
+// other task can run; when nobody else can, it is released and the next one to arrive is held.  At no
+// time may two tasks be parked at the point (both inside the locked region).
+func runSchedHold(kind, point string) sx.Sx {
+	holder := -1
+	choose := func(step int, enabled []int, points []string) int {
+		at := func(t int) int {
+			for i, e := range enabled {
+				if e == t {
+					return i
+				}
+			}
+			return -1
+		}
+		if holder >= 0 && (at(holder) < 0 || points[at(holder)] != point) {
+			holder = -1
+		}
+		if holder < 0 {
+			for i, pt := range points {
+				if pt == point {
+					holder = enabled[i]
+					break
+				}
+			}
+		}
+		if holder >= 0 {
+			for i, e := range enabled {
+				if e != holder {
+					return i
+				}
+			}
+			i := at(holder) // nobody else can run: release the holder
+			holder = -1
+			return i
+		}
+		return step % len(enabled)
+	}
+	schedPreempt = func(string) bool { return true }
+	schedEmitClosed = kind == "emit3closed"
+	defer func() { schedPreempt = nil; schedEmitClosed = false }()
+	_, res := execSchedEmit([]emitSpec{{0, 2}, {0, 2}, {0, 2}}, choose)
+	inside := map[int]bool{}
+	maxInside := 0
+	for _, e := range res.Log {
+		switch e.Kind {
+		case "resume", "done":
+			delete(inside, e.Task)
+		case "yield":
+			if e.Point == point {
+				inside[e.Task] = true
+			} else {
+				delete(inside, e.Task)
+			}
+		}
+		if len(inside) > maxInside {
+			maxInside = len(inside)
+		}
+	}
+	out := []sx.Sx{sx.A("hold"), sx.L(sx.A("maxinside"), sx.N(maxInside)), sx.L(sx.A("steps"), sx.N(len(res.Steps)))}
+	if os.Getenv("VERIF_DEBUG") != "" {
+		for _, e := range res.Log {
+			out = append(out, sx.L(sx.A(e.Kind), sx.N(e.Task), sx.A(e.Point)))
+		}
+	}
+	if res.Deadlock {
+		out = append(out, sx.A("deadlock"))
+	}
+	for range res.Panics {
+		out = append(out, sx.A("panic"))
+	}
+	return sx.L(out...)
 }
 
 func runSchedExcl(p sx.Sx) sx.Sx {
 	kind, point := string(p.List[0].Bytes()), string(p.List[1].Bytes())
+	if kind == "emit3" || kind == "emit3closed" {
+		return runSchedHold(kind, point)
+	}
 	a, b := 0, 1
 	if strings.Contains(point, ".match.res.") {
 		a, b = 1, 0
